@@ -306,7 +306,7 @@ def run(ctx):
     for sc in csc.all_scopes():
         for (b, t, ch) in sc.children():
             if ch.via[0] == "filter":
-                filters.append((ch.via[1].source_name(), ch))
+                filters.append(((ch.via[1].source_name() if ch.via[1] is not None else None), ch))
     fw = [c for s, c in filters if s == "self.walls"]
     fs = [c for s, c in filters if s == "self.shades"]
     if not (len(fw) == 1 and len(fs) == 1):
@@ -435,7 +435,7 @@ def run(ctx):
     check_node_list_conservation(ctx, prog, "c12.conserve")
     # candidate filter in sunlit_fraction
     ssc = Scope(prog, sf)
-    cf = [ch2 for (b, t, ch2) in ssc.children() if ch2.via[0] == "filter" and ch2.via[1].source_name() == "occluders"]
+    cf = [ch2 for (b, t, ch2) in ssc.children() if ch2.via[0] == "filter" and (ch2.via[1] is not None and ch2.via[1].source_name() == "occluders")]
     ctx.require(len(cf) == 1, "sunlit_fraction: candidate filter not found")
     bad = []
     for own, linked_, other in itertools.product((True, False), (True, False), (True, False)):
